@@ -907,6 +907,12 @@ Proof.
     + intros f Hf. apply in_app_iff in Hf. destruct Hf as [Hf|[<-|[]]]; [left; exact Hf | right; exact Bo].
     + intros n'. left. rewrite count_app. simpl. lia.
     + intros c'. left. rewrite count_app. simpl. lia.
+  - simpl in H. destruct (Nat.ltb r (length (s_rrs s))); [|discriminate]. inversion H; subst; clear H. unfold all_frames in *. simpl.
+    eapply closed_transfer; [apply same_cl_refl | intros n' x' Hx'; left; exact Hx' | reflexivity | intros sl' _; left; reflexivity
+      | apply length_setl | | intros f Hf; left; exact Hf | intros n'; left; lia | intros c'; left; lia | exact Inv].
+    apply rr_premise_setl; [intros r' _; reflexivity|].
+    intros Hr. destruct Inv as [_ [_ [_ [_ [_ F]]]]]. destruct (F r Hr) as [F1 [F2 [F3 F4]]].
+    unfold getr in *. unfold rr_ok. simpl. repeat split; auto.
 Qed.
 
 Lemma init_nodes_length : forall k j, length (init_nodes k j) = k.
